@@ -10,6 +10,7 @@ import JominiModel.Proofs.TextReaderUnfit
 import JominiModel.Proofs.TextReaderFull
 import JominiModel.Proofs.TextReaderBuf
 import JominiModel.Proofs.TextReaderFaithfulX
+import JominiModel.Proofs.TextReaderFits
 import JominiModel.Generated.Tables
 /-
 C07 — the streaming text reader is independent of read chunking and buffer size.
@@ -671,5 +672,81 @@ theorem C07_known_reader_shapes :
       [.unquoted [97], .op .eq, .unquoted [49], .unquoted [11, 98], .op .eq, .unquoted [50]] ∧
     (sliceTokens [97, 61, 33, 98, 10]).toks = [.unquoted [97], .op .eq, .op .ne, .unquoted [98]] := by
   decide +kernel
+
+/-! ### "a buffer that can hold the longest token", without the scanner -/
+
+/-- **`C07_fits_if_longest_token`: a sufficient condition for `need ≤ cap` in terms of byte lengths of the layout only.**
+Let the input be the rendering of a document `ms` under a valid layout (`ValidMX`: optional BOM, gaps of blanks and complete
+`#` comments, `@variable`s and `@[ … ]` included, trailing filler `gt`).  If, with `L + 1 ≤ cap` for each length `L` below
+(the exact constant: one byte more than the longest piece, for the look-ahead byte that ends it), and `cap ≥ 3`:
+
+* every lexeme's text in the file — an unquoted scalar's bytes, a quoted scalar with its two quotes, an `@[ … ]`
+  expression whole, an operator —,
+* every line of every gap and of the trailing filler (`maxLine`: the longest run of bytes without LF) — hence every comment
+  `# …` without its LF and every run of blanks on a line —,
+
+then `need data ≤ cap`, and therefore (`C07_buffer_full_iff`) for EVERY fault-free read schedule the streamed run never ends
+in `BufferFull` and equals the from-slice run: exactly the document's lexemes, a clean end, at the end of the input.  The
+hypotheses do not mention `fbLoop`, `specStep` or `need`. -/
+theorem C07_fits_if_longest_token (ms : DMembers) (gt : Bytes) (bom : Bool) (cap : Nat) (sched : List Step)
+    (hv : ValidMX ms gt) (hgt : EndGap gt)
+    (hclash : bom = false → ¬∃ r', renderM ms ++ gt = 0xef :: 0xbb :: 0xbf :: r')
+    (h3 : 3 ≤ cap)
+    (hitems : ∀ it ∈ itemsM ms, maxLine it.1 + 1 ≤ cap ∧ it.2.text.length + 1 ≤ cap) (hgtl : maxLine gt + 1 ≤ cap)
+    (hw : WfSched sched) (hnf : NoFaults sched) :
+    need (bomBytes bom ++ (renderM ms ++ gt)) ≤ cap ∧
+    (streamTokens cap sched (bomBytes bom ++ (renderM ms ++ gt))).toks = (itemsM ms).map (fun x => x.2.tok) ∧
+    (streamTokens cap sched (bomBytes bom ++ (renderM ms ++ gt))).out = .end_ := by
+  have hr : renderLex (itemsM ms) gt = renderM ms ++ gt := renderLex_itemsM ms gt
+  have hvl : ValidLexX (itemsM ms) gt := by
+    have := validLexX_itemsM ms [] gt (by simpa [renderLex] using hv) (by simpa [ValidLexX] using hgt)
+    simpa using this
+  have hneed : need (bomBytes bom ++ (renderM ms ++ gt)) ≤ cap := by
+    have := fits_if_longest_token (itemsM ms) gt bom cap hvl (by rw [hr]; exact hclash) h3 hitems hgtl
+    rwa [hr] at this
+  obtain ⟨t1, t2, _⟩ := C07_stream_faithful_x ms gt bom cap sched hv hgt hclash hw hnf hneed
+  exact ⟨hneed, t1, t2⟩
+
+/-- the same at the level of lexeme lists (only `need ≤ cap`) -/
+theorem C07_fits_if_longest_token_lexemes (items : List (Bytes × Lexeme)) (gt : Bytes) (bom : Bool) (cap : Nat)
+    (hv : ValidLexX items gt) (hclash : bom = false → ¬∃ r', renderLex items gt = 0xef :: 0xbb :: 0xbf :: r')
+    (h3 : 3 ≤ cap) (hitems : ∀ it ∈ items, maxLine it.1 + 1 ≤ cap ∧ it.2.text.length + 1 ≤ cap) (hgt : maxLine gt + 1 ≤ cap) :
+    need (bomBytes bom ++ renderLex items gt) ≤ cap :=
+  fits_if_longest_token items gt bom cap hv hclash h3 hitems hgt
+
+-- `a = { "x y" 1 } # c\n b>=2`: the longest lexeme is `"x y"` (5 bytes), the longest gap line ` # c` (4 bytes): 6 bytes fit (the
+-- condition is sufficient, not tight: `need` is 4 — the quoted scalar's content and the comment, plus one byte each)
+example :
+    let doc : DMembers :=
+      .field [] false [97] [32] .eq (.cont [32] (.elem (.scal [32] true [120, 32, 121]) (.elem (.scal [32] false [49]) .nil)) [32])
+        (.field [32, 35, 32, 99, 10, 32] false [98] [] .ge (.scal [] false [50]) .nil)
+    (∀ it ∈ itemsM doc, maxLine it.1 + 1 ≤ 6 ∧ it.2.text.length + 1 ≤ 6) ∧ maxLine [10] + 1 ≤ 6 ∧
+    need (renderM doc ++ [10]) = 4 := by
+  decide +kernel
+
+/-- **`C07_need_ge_token`: every token the reader returns forces `need ≥` its size** — `tokSize`: the bytes of an unquoted
+scalar (for an `@[ … ]` expression this is exact), the content of a quoted scalar plus its closing quote (exact).  For every
+input, no layout assumption. -/
+theorem C07_need_ge_token (data : Bytes) (t : Token) (ht : t ∈ (sliceTokens data).toks) : tokSize t ≤ need data := by
+  have hn : 0 < need data := by unfold need; omega
+  have hw : WfSched ([] : List Step) := by intro x hx; simp at hx
+  have hnf : NoFaults ([] : List Step) := by intro x hx; simp at hx
+  obtain ⟨e1, _, _⟩ := C07_stream_eq_slice_fits data (need data) [] hw hnf (Nat.le_refl _)
+  rw [← e1] at ht
+  exact C07_returned_tokens_fit data (need data) [] hn t ht
+
+/-- **`C07_need_ge_longest_token`: an unquoted scalar of `L` bytes forces `need ≥ L + 1`** — the scalar and the boundary
+byte that ends it must be in the buffer together —, wherever it stands in a valid layout (`@name` variables included; not
+`@[ … ]` expressions, which need exactly their length, `C07_need_ge_token`).  With `C07_fits_if_longest_token`: for a
+document whose longest piece is an unquoted scalar of `L` bytes, `need = L + 1` exactly. -/
+theorem C07_need_ge_longest_token (items1 rest : List (Bytes × Lexeme)) (g bs gt : Bytes) (bom : Bool)
+    (hv : ValidLexX (items1 ++ (g, Lexeme.scalar false bs) :: rest) gt)
+    (hni : ∀ body, bs ≠ 64 :: 91 :: (body ++ [93]))
+    (hclash : bom = false → ¬∃ r', renderLex (items1 ++ (g, Lexeme.scalar false bs) :: rest) gt = 0xef :: 0xbb :: 0xbf :: r') :
+    bs.length + 1 ≤ need (bomBytes bom ++ renderLex (items1 ++ (g, Lexeme.scalar false bs) :: rest) gt) :=
+  need_ge_unquoted items1 rest g bs gt bom hv hni hclash
+
+-- `abcdef=1 `: the scalar of 6 bytes needs 7; a quoted scalar with 3 bytes of content needs 4
+example : need [97, 98, 99, 100, 101, 102, 61, 49, 32] = 7 ∧ need [97, 61, 34, 120, 121, 122, 34, 32] = 4 := by decide +kernel
 
 end Jomini.Props.C07
